@@ -37,9 +37,10 @@ CHECKS = {
              'when the result equals the modelled index-shift behaviour and the root-cause probe saw a partial list removal.',
         design='4/C04'),
     'C05': dict(
-        technique='property-based metamorphic testing (Hypothesis): build(D_i) vs build({k..: D_i}) vs build with unrelated sibling content',
-        text='Generated merge sequences over priority/!del/!merge/!new/!notnew tags are built unwrapped, wrapped under a key chain drawn from the '
-             'documents\' own key alphabet, and wrapped with an unrelated sibling sequence; results (or failure classes) must correspond.',
+        technique='property-based metamorphic testing (Hypothesis): build(D_i) vs build({k..: D_i}) vs build with unrelated sibling content vs build with keys renamed injectively, plus a frame relation against build(D_1..D_n-1)',
+        text='Generated merge sequences over priority/!del/!merge/!new/!notnew tags (optionally with a yaml alias of a container) are built unwrapped, wrapped under a key chain drawn from the '
+             'documents\' own key alphabet, wrapped with an unrelated sibling sequence, and with string keys renamed injectively; results (or failure classes) must correspond, and paths the last '
+             'document neither mentions nor has below a deleting node must be unchanged.',
         note='Relation between runs of the implementation; documented exception for an explicit !del stage root with an empty result.',
         design='4/C05'),
     'C06': dict(
